@@ -52,7 +52,7 @@ class DtypeStrings(Contract):
             for text in (want_fxp, want_fxp.upper()):
                 y = Fxp(None, dtype=text)
                 chk('parse_ctor', (y.signed, y.n_word, y.n_frac) == (s, n, f) and y.vdtype != complex, [f, text, y.signed, y.n_word, y.n_frac])
-                z = Fxp(None, not s, 7, 3); z.resize(dtype=text)
+                z = Fxp(None, not s, max(n - 1, 1), f - 1); z.resize(dtype=text)      # a neighbouring format: the re-scaling of the value is C10's business
                 chk('parse_resize', (z.signed, z.n_word, z.n_frac) == (s, n, f), [f, text, z.signed, z.n_word, z.n_frac])
             chk('get_sizes', _sizes(utils, want_fxp) == (s, n, f), [f, want_fxp, _sizes(utils, want_fxp)])
             if n <= 52:
